@@ -386,6 +386,77 @@ func checkC17(e *core.Env) {
 			}
 		}
 	}
+	checkC17Foreign(e, realCC)
+}
+
+// plainWrap is an application's own wrapper (metrics, retries, ...): it implements WrappedClientConn and nothing
+// else of the library.
+type plainWrap struct{ grpc.ClientConnInterface }
+
+func (p plainWrap) Unwrap() grpc.ClientConnInterface { return p.ClientConnInterface }
+
+// checkC17Foreign: wrappers of the application's own between, above and below the library's layers. The
+// connection argument is the root connection whatever kinds of wrapper lie in between; every library layer is
+// still entered exactly once, outermost first.
+func checkC17Foreign(e *core.Env, realCC *grpc.ClientConn) {
+	for _, root := range []string{"real", "fake"} {
+		for _, pattern := range []string{"FL", "LFL", "FFL", "LFFL", "FLFL", "LLFL", "FLF", "LFLF"} { // bottom to top
+			var base grpc.ClientConnInterface = realCC
+			want := realCC
+			if root == "fake" {
+				base, want = &fakeBase{rec: &c17rec{}, err: errors.New("fake base")}, nil
+			}
+			var seen []*grpc.ClientConn
+			var order []int
+			top, nL := base, 0
+			for _, k := range pattern {
+				if k == 'F' {
+					top = plainWrap{top}
+					continue
+				}
+				id := nL
+				nL++
+				top = grpchan.InterceptClientConn(top, func(ctx context.Context, method string, req, reply interface{}, cc *grpc.ClientConn, invoker grpc.UnaryInvoker, opts ...grpc.CallOption) error {
+					seen, order = append(seen, cc), append(order, id)
+					return invoker(ctx, method, req, reply, cc, opts...)
+				}, func(ctx context.Context, desc *grpc.StreamDesc, cc *grpc.ClientConn, method string, streamer grpc.Streamer, opts ...grpc.CallOption) (grpc.ClientStream, error) {
+					seen, order = append(seen, cc), append(order, id)
+					return streamer(ctx, desc, cc, method, opts...)
+				})
+			}
+			for _, kind := range []string{"unary", "stream"} {
+				seen, order = nil, nil
+				cctx, cancel := context.WithCancel(context.Background())
+				if kind == "stream" {
+					st, err := top.NewStream(cctx, ServerStream.StreamDesc(), ServerStream.Method())
+					if err == nil && st != nil {
+						st.CloseSend()
+					}
+				} else {
+					top.Invoke(cctx, Unary.Method(), &tpb.Message{}, new(tpb.Message))
+				}
+				cancel()
+				e.Eval(fmt.Sprintf("foreign|%s|%s|%s", root, pattern, kind), true)
+				desc := fmt.Sprintf("root=%s wrappers bottom-to-top=%s (F = the application's own WrappedClientConn, L = InterceptClientConn), %s call", root, pattern, kind)
+				for li, cc := range seen {
+					if cc != want {
+						e.Violate("call/foreign-wrappers/cc", fmt.Sprintf("%s: interceptor #%d (outermost first) got cc=%p, the root connection is %p", desc, li, cc, want), nil)
+						break
+					}
+				}
+				if len(order) != nL {
+					e.Violate("call/foreign-wrappers/order", fmt.Sprintf("%s: %d interceptor hits, %d library layers", desc, len(order), nL), nil)
+					continue
+				}
+				for li, id := range order {
+					if id != nL-1-li {
+						e.Violate("call/foreign-wrappers/order", fmt.Sprintf("%s: layers entered in order %v (ids count from the bottom)", desc, order), nil)
+						break
+					}
+				}
+			}
+		}
+	}
 }
 
 // lazyConn is a wrapper whose underlying channel changes over time.
